@@ -51,6 +51,10 @@ func (tinyViews) Render(w io.Writer, name string, binding any, layouts ...string
 	}
 	sort.Strings(keys)
 	fmt.Fprintf(w, "<%s>", name)
+	if strings.HasPrefix(name, "fail") {
+		// a template that cannot be rendered: the engine fails after it has written something
+		return fmt.Errorf("tinyViews: template %q cannot be rendered", name)
+	}
 	if len(layouts) > 0 {
 		fmt.Fprintf(w, "layouts=%q;", layouts)
 	}
@@ -363,6 +367,13 @@ func (st *runState) observe(c fiber.Ctx, where string, herr error) {
 		err := c.Render("obs", fiber.Map{})
 		o["render"] = fmt.Sprintf("%q err=%s", c.Response().Body(), errStr(err))
 		c.Response().ResetBody()
+		// ... and one without a bind map at all (the context supplies the map); not from the error handler: a
+		// successful render there would tidy up after the failed facility call whose leftovers are being looked for
+		if where != "errorhandler" {
+			err = c.Render("obs", nil)
+			o["render.nil-bind"] = fmt.Sprintf("%q err=%s", c.Response().Body(), errStr(err))
+			c.Response().ResetBody()
+		}
 	}
 	st.obs[idx] = append(st.obs[idx], o)
 }
